@@ -72,8 +72,10 @@ def scen_convert(ch, params, out):
     T = {"int": dt.IntString, "float": dt.FloatString, "bool": dt.BooleanString, "date": dt.IsoDateString, "time": dt.IsoTimeString,
          "datetime": dt.IsoDatetimeString}[atom]
     val = build(inner, ATOMS[atom])
-    s1 = {"plain": "some text", "num": 3, "empty": [], "nul": None, "target": val}
-    s2 = {"plain": "other text", "num": 4, "empty": [], "nul": None}
+    # siblings: plain values, a float-string list sharing a literal with the target (for int atoms), and a key equal to the class name
+    shared_literal = ATOMS[atom][0] if atom == "int" else "12"
+    s1 = {"plain": "some text", "num": 3, "empty": [], "nul": None, "target": val, "floats": [shared_literal, "2.5"], "Root": "77"}
+    s2 = {"plain": "other text", "num": 4, "empty": [], "nul": None, "floats": ["0.5", shared_literal], "Root": "78"}
     if not top_optional:
         s2["target"] = build(inner, ATOMS[atom][::-1])
     elif null_form == "null":
@@ -98,7 +100,7 @@ def scen_convert(ch, params, out):
         out.fail("inference_raises", f"{type(e).__name__}: {e} ({ctx()})", f"inference_raises:{type(e).__name__}")
         return
     try:
-        text = pipeline.emit(reg, fw, "flat", post_init_converters=conv)
+        text = pipeline.emit(reg, fw, "flat", post_init_converters=conv, meta=True)
     except Exception as e:
         out.fail("generation_raises", f"{type(e).__name__}: {e} ({ctx()})", f"generation_raises:{type(e).__name__}")
         return
@@ -110,9 +112,11 @@ def scen_convert(ch, params, out):
     try:
         root = ld.classes["Root"]
         ann = pipeline.resolve_annotation(pipeline.own_annotations(root)["target"], ld, root)
+        table = pipeline.field_table(ld, root, fw)
+        name_of = {(rec["key"] if rec["key"] is not None else f): f for f, rec in table.items()}      # JSON key -> python field name
         for si, s in enumerate(samples):
             try:
-                obj = root(**copy.deepcopy(s))
+                obj = root(**{name_of.get(k, k): v for k, v in copy.deepcopy(s).items()})
             except Exception as e:
                 known_attrs = fw == "attrs" and not conv and atom in ("bool", "date", "time", "datetime") and not inner
                 out.fail("construction_raises", f"sample {si} {s}: {type(e).__name__}: {e} ({ctx()}) annotation {ann}\n{text}",
@@ -135,6 +139,14 @@ def scen_convert(ch, params, out):
                     if not (fw == "attrs" and not conv):
                         out.fail("construction_raises", f"Child from {s['child']}: {type(e).__name__}: {e} ({ctx()})\n{text}",
                                  f"construction_raises:second_class:{type(e).__name__}")
+            if conv:
+                fl = getattr(obj, name_of.get("floats", "floats"))
+                wantf = [dt.FloatString.to_internal_value(x) for x in s["floats"]]
+                out.check(same(fl, wantf, dt.FloatString), "converted_value_wrong",
+                          lambda: f"sample {si}: floats holds {fl!r} ({[type(x).__name__ for x in fl]}), expected FloatString values {wantf!r} ({ctx()})", "converted_value_wrong:sibling_list")
+                rv = getattr(obj, name_of.get("Root", "Root"))
+                out.check(type(rv) is dt.IntString and rv == int(s["Root"]), "converted_value_wrong",
+                          lambda: f"sample {si}: field for key 'Root' holds {rv!r} of {type(rv).__name__} ({ctx()})\n{text}", "converted_value_wrong:key_named_like_class")
             for other in ("plain", "num", "empty", "nul"):
                 out.check(getattr(obj, other) == s[other] and type(getattr(obj, other)) is type(s[other]), "other_field_touched",
                           lambda: f"{other}: {getattr(obj, other)!r} vs {s[other]!r} ({ctx()})", "other_field_touched")
@@ -157,7 +169,7 @@ def parts(tier):
     if tier == "quick":
         return [CH("paths2", "vflib.props.c18:scen_convert", {"depth": 2, "atoms": ["int", "float", "bool", "date", "datetime"]}, shards=16, timeout=170, path_timeout=30),
                 CH("paths3_int", "vflib.props.c18:scen_convert", {"depth": 3, "atoms": ["int", "time"]}, shards=16, timeout=170, path_timeout=30)]
-    return [CH("paths3", "vflib.props.c18:scen_convert", {"depth": 3}, shards=16, timeout=2000, path_timeout=30)]
+    return [CH("paths3", "vflib.props.c18:scen_convert", {"depth": 3}, shards=16, timeout=900, path_timeout=30)]
 
 
 META = {
